@@ -284,7 +284,13 @@ func (fr *frame) runDefers() {
 
 // lookupMethod returns the method set for type typ.
 func lookupMethod(i *interpreter, typ types.Type, meth *types.Func) *ssa.Function {
-	return i.prog.LookupMethod(typ, meth.Pkg(), meth.Name())
+	k := methKey{typ, meth}
+	if f, ok := methCache[k]; ok {
+		return f
+	}
+	f := i.prog.LookupMethod(typ, meth.Pkg(), meth.Name())
+	methCache[k] = f
+	return f
 }
 
 // visitInstr interprets a single ssa.Instruction within the activation
@@ -593,9 +599,10 @@ func callSSA(i *interpreter, caller *frame, callpos token.Pos, fn *ssa.Function,
 	}
 	name := ""
 	if fn.Parent() == nil {
-		name = fn.String()
-		if fn.Origin() != nil {
-			name = fn.Origin().String()
+		meta := metaOf(fn)
+		name = meta.name
+		if meta.plain && len(i.stubs) == 0 {
+			goto run
 		}
 		if st := i.stubs[name]; st != nil && st != fn {
 			if ex != nil {
@@ -603,7 +610,7 @@ func callSSA(i *interpreter, caller *frame, callpos token.Pos, fn *ssa.Function,
 			}
 			return callSSA(i, caller, callpos, st, args, nil)
 		}
-		if ext := externals[name]; ext != nil {
+		if ext := meta.ext; ext != nil {
 			if ex != nil {
 				ex.IntrinsicHit[name]++
 			}
@@ -621,6 +628,9 @@ func callSSA(i *interpreter, caller *frame, callpos token.Pos, fn *ssa.Function,
 				return callLogrus(fr, fn, args)
 			}
 		}
+		if meta.plain {
+			goto run
+		}
 		if fn.Blocks == nil {
 			ensureBuilt(fn)
 		}
@@ -628,6 +638,7 @@ func callSSA(i *interpreter, caller *frame, callpos token.Pos, fn *ssa.Function,
 			panic(pathEnd{peUnsupported, "no code for function: " + name})
 		}
 	}
+run:
 	if fn.Blocks == nil {
 		ensureBuilt(fn)
 	}
@@ -1010,3 +1021,50 @@ func (p symElemPtr) load() value {
 	}
 	return mkVal(k, res)
 }
+
+// fnMeta caches per-function facts that are expensive to recompute on every call.
+type fnMeta struct {
+	name  string
+	ext   externalFn
+	plain bool // no external, not nd/logrus, not a proto enum String: just interpret the body
+}
+
+var fnMetas = map[*ssa.Function]*fnMeta{}
+
+func metaOf(fn *ssa.Function) *fnMeta {
+	if m, ok := fnMetas[fn]; ok {
+		return m
+	}
+	m := &fnMeta{}
+	m.name = fn.String()
+	if fn.Origin() != nil {
+		m.name = fn.Origin().String()
+	}
+	m.ext = externals[m.name]
+	special := m.ext != nil
+	if pkg := fn.Package(); pkg != nil {
+		pp := pkg.Pkg.Path()
+		if strings.HasSuffix(pp, "zzverif/nd") || pp == "github.com/sirupsen/logrus" {
+			special = true
+		}
+	}
+	if fn.Name() == "String" && fn.Signature.Recv() != nil {
+		special = true // possibly a protobuf enum
+	}
+	if fn.Blocks == nil {
+		ensureBuilt(fn)
+		if fn.Blocks == nil {
+			special = true
+		}
+	}
+	m.plain = !special
+	fnMetas[fn] = m
+	return m
+}
+
+type methKey struct {
+	t types.Type
+	m *types.Func
+}
+
+var methCache = map[methKey]*ssa.Function{}
